@@ -35,12 +35,14 @@ def envRecursive (env : Env) : Bool :=
     reach.contains e.1
 
 /-- second channel of `h256`: the 32-bit hash names a recursive back reference by the NAME of the type under expansion
-(D101b): a rewrite that introduces or removes a name for a sub-term of a recursive environment may change it -/
+(D101b): a rewrite that introduces or removes a name for a sub-term of a recursive environment may change it; it also writes the members of a union / intersection / literal set in the order they stand (D108) -/
 def h256Hyps (script : Sexp) (e1 e2 : Sexp) : Sexp :=
   let names : List String := match script with | .list xs => xs.filterMap (fun x => match x with | .atom a => some a | _ => none) | _ => []
   let moves := names.any fun k => k == "extract" || k == "inline"
   let rec_ := match decEnv e1, decEnv e2 with | some a, some b => envRecursive a || envRecursive b | _, _ => false
-  .list (.atom "hyp-failed" :: (if moves && rec_ then [Sexp.atom "NoNewBinderOnCycle"] else []))
+  let reorders := names.any fun k => k == "member-order"
+  .list (.atom "hyp-failed" :: ((if moves && rec_ then [Sexp.atom "NoNewBinderOnCycle"] else []) ++
+    (if reorders then [Sexp.atom "NoMemberReorder"] else [])))
 
 /-- `(rtd id env rt values)`: the text `describe()` prints for a parser named E0 built from the classes -/
 def rtdOp (e r : Sexp) : Sexp :=
